@@ -144,6 +144,19 @@ func (p c02) Gen(r *simhook.Rand, tier string, idx int) harness.Scenario {
 			sc.Conns[i].SlowRead = 1
 		}
 	}
+	if r.Chance(1, 20) {
+		// class "wide": one request that fans out into more sub-requests than the 1024-entry queues of a backend
+		// connection hold, against healthy backends (the empty fault sequence): it must simply be answered
+		sc.Class = "wide"
+		n := 1100 + r.Intn(2000)
+		a := world.Bins([]string{"MGET", "DEL", "EXISTS"}[r.Intn(3)])
+		for i := 0; i < n; i++ {
+			a = append(a, world.Bin(fmt.Sprintf("{w}%d", i)))
+		}
+		sc.Conns = append(sc.Conns, ConnScript{Name: "wide", Reqs: []world.Request{{Args: a}}})
+		sc.Faults = nil
+		return sc
+	}
 	if r.Chance(1, 12) {
 		// deep-queue class: a very wide MGET towards a stalled node fills the 1024-slot backend queues
 		sc.Class = "deep-queue"
